@@ -159,6 +159,14 @@ class TrioEventLoop(EventLoop):
             True if the scope was cancelled, False if it was cancelled already
             before invoking this function
         """
+        if self._nursery is None:
+            # not running: the task has not been started yet (and a scope cannot be cancelled outside Trio)
+            for index, (_task, pending_scope, _args) in enumerate(self._pending_tasks):
+                if pending_scope is scope:
+                    del self._pending_tasks[index]
+                    return True
+            return False
+
         existed = not scope.cancel_called
         scope.cancel()
         return existed
